@@ -4,7 +4,7 @@
    function's order of checks and mutations; worklist loops run on explicit fuel. *)
 From stdpp Require Import gmap.
 From Coq Require Import NArith.
-From RV Require Import Base.Str Base.PathLex Base.PathLexFacts Base.SpanFacts Path.Helpers Path.Expand Path.Abs Memfs.State.
+From RV Require Import Base.Str Base.PathLex Base.PathLexFacts Base.SpanFacts Path.Helpers Path.Expand Path.Abs Path.CleanSpec Memfs.State.
 
 (* results carry an error kind only (never message text) *)
 Definition mres (A : Type) := (A + errkind)%type.
@@ -243,7 +243,11 @@ Fixpoint move_loop (fuel : nat) (m : mfs) (src_root dst_target : rpath) (paths :
           | None => Done (m, inr EDoesNotExist)
           | Some se =>
               (* 1. move the entry *)
-              let m1 := upd_ents m (fun es => insert dp (set_path se dp) (delete sp es)) in
+              (* a link stores its target relative to itself: it is resolved again from its new location *)
+              let se' := if e_link se && negb (is_absolute (e_rel se))
+                         then set_alt (set_path se dp) (Some (rev (names_of (clean_spec (mash (render_rpath (tail dp)) (e_rel se))))))
+                         else set_path se dp in
+              let m1 := upd_ents m (fun es => insert dp se' (delete sp es)) in
               (* 2. move the data *)
               let m2 := match m_data m1 !! sp with
                         | Some d => upd_data m1 (fun ds => insert dp d (delete sp ds))
